@@ -60,6 +60,15 @@ CLAIMED["C32"] = dict(
         "library are opaque. " + TRUST,
    design="DESIGN.md §4 C32")
 
+CLAIMED["C09"] = dict(
+   text="Proof-level kernel: the expiry decision of Volume.readNeedle (data is returned only for a record whose append time + TTL lies in the future; a "
+        "record that was read is reported not-found only if that time has passed - exact 64-bit arithmetic over a ghost clock), Volume.expired and "
+        "expiredLongEnough (true only when more than the TTL has passed since the recorded modification time), TTL.Minutes, and the lemma "
+        "minutes(ReadTTL(SecondsToTTL(s))) * 60 >= s for every lifetime up to 255 years (SMT string theory for the formatted TTL).",
+   note="ReadData is abstracted (any decoded needle, timestamps below 2^62); compaction's keep-predicate (C04), the link between the volume's modification "
+        "time and append times, and the filer->assign plumbing are not decided here. " + TRUST,
+   design="DESIGN.md §4 C09")
+
 NA = {
  "C03":"crash-point property over byte-level truncation of two persistent files; no per-function contract within reach decides it (DESIGN §4 C03)",
  "C10":"needs inductive tree predicates and cardinality reasoning over interface-typed nodes in pointer maps with randomised picking (DESIGN §4 C10)",
